@@ -167,6 +167,7 @@ def run(P, rep, tier):
              ('R14.5', lambda: r145(P, u, rep, cg)),
              ('R14.6', lambda: r146(P, u, rep, cg, facts)),
              ('R14.10', lambda: r1410(P, u, rep, cg, facts)),
+             ('R14.11', lambda: r1411(P, u, rep, cg, facts)),
              ('R14.7', lambda: r147(P, rep, cg)),
              ('R14.8', lambda: r148(P, u, rep, cg, facts)),
              ('R14.9', lambda: r149(P, rep, cg, reach_main))]
@@ -551,7 +552,7 @@ def r143_r144(P, u, rep, cg, reach_main, facts):
             rep.ob('R14.3', '%s:%s:%s-in-driver' % (cu.name, fn, kind), cu.name == U,
                    'a process is created (%s) outside main.c (%s)' % (kind, cg.witness(fn)), where=_where(cu.fn(fn), cu.name))
         try:
-            it = L.make_interp(P, cu, loop_limit=1, globals_=_lazy_record_globals(cu))
+            it = L.make_interp(P, cu, loop_limit=1, globals_=_lazy_record_globals(cu), inherited_child=True)
             it.sig_may_install = sig_may_install
             paths = it.explore(fn, lambda ctx: [])
         except AnalysisBroken as e:
@@ -619,8 +620,15 @@ def r143_r144(P, u, rep, cg, reach_main, facts):
             # ---- R14.4
             if role == 'parent':
                 stt = st['status']
+                others = st.get('others_reaped', 0)       # children the path did not start that a wait-for-any call returned
                 if stt is None or (st['children'] > 0 and out[0] == 'ret'):
-                    if out[0] == 'ret':
+                    if out[0] == 'ret' and others:
+                        rep.ob('R14.4', '%s:%s:returns-before-own-child-is-reaped' % (cu.name, fn), False,
+                               'the function waits for ANY child and takes the first one that exits for the one it started: a process keeps its children across exec, so when the driver was exec\'ed by a wrapper '
+                               'that had forked a helper, wait() returns the helper, the function returns while the stage it started is still running and the status of that stage is never examined - '
+                               'a failing cc1 goes unnoticed, the next stage reads a file that is still being written, the driver can exit 0',
+                               where=w, facts=trail)
+                    elif out[0] == 'ret':
                         rep.ob('R14.4', '%s:%s:child-not-waited-for' % (cu.name, fn), False,
                                'a path returns to the pipeline without having waited for the child: the next stage reads a file the child is still writing, and its failure is never seen',
                                where=w, facts=trail)
@@ -638,7 +646,13 @@ def r143_r144(P, u, rep, cg, reach_main, facts):
                            'a child that exited with status 0 makes the driver terminate (%s): the pipeline stops after its first stage' % (out[1],), where=w, facts=trail)
                 else:
                     what = 'exited with code %d' % (val >> 8) if cls == 'child-exit-code' else 'was killed by signal %d%s' % (val & 0x7f, ' (core dumped)' if val & 0x80 else '')
-                    if out[0] == 'ret':
+                    if out[0] == 'ret' and others:
+                        rep.ob('R14.4', '%s:%s:failed-child-masked-by-status-of-another-child' % (cu.name, fn), False,
+                               'the function waits for ANY child and decides on the status the last wait delivered: when the process owns a child it did not start (a process keeps its children across exec: '
+                               '`helper & exec chibicc ...`) and that child exits with status 0 after the stage, the status of the stage that %s (wait status %#x) is overwritten and the failure is '
+                               'treated as success - the driver carries on with the next pipeline stage and can exit 0' % (what, val),
+                               where=w, facts=trail)
+                    elif out[0] == 'ret':
                         rep.ob('R14.4', '%s:%s:%s-ignored' % (cu.name, fn, cls), False,
                                'a child that %s (wait status %#x) is treated as success: the driver carries on with the next pipeline stage (assembles a truncated temporary, links anyway) and can exit 0' % (what, val),
                                where=w, facts=trail)
@@ -1010,6 +1024,103 @@ def r146(P, u, rep, cg, facts):
                        'with `-o out`, ONE input and -%s no path starts a subprocess: the legitimate command is rejected' % flag[4:], where=w)
 
 
+# ================================================================= R14.11 ===
+# "outputs other than the requested ones do not exist": a mode that ends the pipeline early never starts a later stage,
+# whatever else is on the command line.  Decided symbolically: main is explored with ONE mode flag set and every other
+# option, the option lists and the kind of the input (C / assembler / object / archive / -l / -Wl, operand: an unknown
+# string, classified by the code itself) left open; no path may reach a stage the mode excludes.  The command
+# lines of R14.8 decide the same for a fixed list of concrete argument vectors through the real parser; this rule does
+# not depend on which operand or which combination of flags makes the stage start.
+STAGES_EXCLUDED = (('opt_E', ('run_linker',)), ('opt_M', ('run_linker',)), ('opt_S', ('assemble', 'run_linker')), ('opt_c', ('run_linker',)))
+
+
+def r1411(P, u, rep, cg, facts):
+    rep.rule('R14.11', 'a mode that ends the pipeline early never starts a later stage: with -E, -M, -S or -c set (every other option, the number and the kind of the inputs open) '
+                       'no path of main reaches the linker, with -S none reaches the assembler', floor=5)
+    if 'input_paths' not in u.globals or 'opt_cc1' not in u.globals or any(f not in u.functions for f in SUBPROC):
+        rep.undecided('R14.11', '%s:main:anchors' % U, 'globals input_paths / opt_cc1 or the stage functions %s not all found' % '/'.join(SUBPROC))
+        return
+    tmp_fns = sorted(facts.get('tmp_fns', ()))
+
+    def m_tmp(it, ctx, n, args):
+        v = Sym(ctx.fresh('tmp'), 'char *')
+        ctx.emit('call', 'create_tmpfile', args, n.line, v)
+        return v
+    models = {'strarray_push': _m_strarray_push}
+    for t in tmp_fns:
+        models[t] = m_tmp
+    # helpers of main.c that answer a question (scalar result: kind of an input, "is this a link?") or group statements
+    # (void) are interpreted, so that a test moved into a helper is still the test; the stage functions, the temp creator,
+    # the option parser and the name builders (pointer result) are calls whose result is open
+    all_opaque = [f for f in u.functions if f != 'main']
+
+    def ret_type(f):
+        t = (u.fn(f).dtype or u.fn(f).type or '')
+        return t.split('(')[0].strip()
+    keep = set(SUBPROC) | set(tmp_fns) | set(facts.get('fork_fns', ())) | {'parse_args', 'cc1'}
+    helpers = [f for f in all_opaque if f not in keep and '*' not in ret_type(f)]
+    answer = set(f for f in all_opaque if f not in keep and '*' not in ret_type(f) and ret_type(f) != 'void')
+
+    def explore(over, k, opaque):
+        glob = _lazy_record_globals(u, dict(over, opt_cc1=0, input_paths=(lambda ctx: Obj('StringArray', lazy=False, label='g:input_paths',
+                                    fields={'data': Arr([Sym('input%d' % i, 'char *') for i in range(k)] + [0]), 'len': k, 'capacity': 8}))))
+        it = L.make_interp(P, u, opaque=opaque, extra_models=models, globals_=glob, loop_limit=1)
+        return it.explore('main', lambda ctx: [Sym('argc', 'int'), Sym('argv', 'char **')], max_paths=20000)
+
+    def explore_any(over):
+        """-> (paths, helpers_interpreted?)"""
+        try:
+            return explore(over, 1, [f for f in all_opaque if f not in helpers]), True
+        except AnalysisBroken:
+            return explore(over, 1, all_opaque) + explore(over, 2, all_opaque), False
+    w = _where(u.fn('main'))
+    flags = [f for f, _ in STAGES_EXCLUDED]
+    # liveness of the observation: in link mode (no mode flag set) the stages are reached
+    try:
+        base, _ = explore_any(dict((f, 0) for f in flags if f in u.globals))
+    except AnalysisBroken as e:
+        rep.undecided('R14.11', '%s:main:link-mode:interpretation' % U, str(e))
+        return
+    seen = set(e[1] for ctx, out in base for e in L.calls_of(ctx, SUBPROC))
+    if not set(SUBPROC) <= seen:
+        rep.undecided('R14.11', '%s:main:link-mode:stages' % U, 'with no mode flag set main reaches only %s of the stages %s: stage calls are not observable'
+                      % (', '.join(sorted(seen)) or 'none', '/'.join(SUBPROC)))
+        return
+    for flag, excluded in STAGES_EXCLUDED:
+        if flag not in u.globals:
+            rep.undecided('R14.11', '%s:main:%s' % (U, flag), 'mode flag %s not found' % flag)
+            continue
+        try:
+            paths, precise = explore_any({flag: 1})
+        except AnalysisBroken as e:
+            rep.undecided('R14.11', '%s:main:%s:interpretation' % (U, flag), str(e))
+            continue
+        if not any(L.calls_of(ctx, 'run_cc1') for ctx, out in paths if out[0] == 'ret'):
+            rep.undecided('R14.11', '%s:main:%s:no-cc1-path' % (U, flag), 'with %s set no returning path of main runs cc1: the mode anchor moved' % flag)
+            continue
+        for stage in excluded:
+            bad = unsure = None
+            for ctx, out in paths:
+                ev = L.calls_of(ctx, stage)
+                if not ev:
+                    continue
+                if not precise and L.calls_of(ctx, answer):
+                    unsure = unsure or (ctx, ev[0])      # the path rests on the open answer of a helper that could not be interpreted
+                    continue
+                bad = (ctx, ev[0])
+                break
+            opt = '-' + flag[4:]
+            what = 'linker' if stage == 'run_linker' else ('assembler' if stage == 'assemble' else stage)
+            if bad is None and unsure is not None:
+                rep.undecided('R14.11', '%s:main:%s-%s' % (U, flag, stage), 'with %s set a path of main reaches %s(), but only for some answer of %s, which could not be interpreted'
+                              % (opt, stage, '/'.join(sorted(set(e[1] for e in L.calls_of(unsure[0], answer))))), where='%s:%d' % (U, unsure[1][3]))
+                continue
+            rep.ob('R14.11', '%s:main:%s-%s' % (U, flag, ('never-starts-%s' if bad is None else 'starts-%s') % stage), bad is None,
+                   'with %s on the command line a path of main calls %s(): the %s runs although the requested pipeline ends before it - the driver fails in a step nobody asked for '
+                   '(ld: undefined reference to main) or leaves an output (a.out, an object written over the .s file) that the command line does not request'
+                   % (opt, stage, what), where='%s:%d' % (U, bad[1][3]) if bad else w, facts={'path': _fmt_path(bad[0], 14)} if bad else None)
+
+
 # ================================================================= R14.10 ===
 # process isolation of the front end: tokenizer, preprocessor, parser and code generator can end in a crash (stack
 # overflow on deeply nested input, assertion, out of memory) as well as in a diagnostic.  The driver survives that -
@@ -1219,6 +1330,12 @@ def r148(P, u, rep, cg, facts):
         ('link', '', 0, [_C1, _C2], ['a.out']),
         ('link+o', '', _OUT, [_C1, _C2], [_OUT]),
         ('link-asm', '', 0, [_C1, _A1], ['a.out']),
+        # linker operands (-l..., -Wl,...) take part in a link only: in every mode that ends earlier nothing is started for them
+        ('E-lib', 'E', 0, [_C1, '-lm'], []),
+        ('M-lib', 'M', 0, [_C1, '-lm', '-Wl,-z,now'], []),
+        ('S-lib', 'S', 0, ['-lm', _C1], [_stem(_C1) + '.s']),
+        ('c-lib', 'c', 0, [_C1, '-Wl,--as-needed', '-lm'], [_stem(_C1) + '.o']),
+        ('link-lib', '', 0, [_C1, '-lm', '-Wl,-z,now'], ['a.out']),
     ]
     for sc, mode, o, ins, expect in scenarios:
         over = {'opt_cc1': 0, 'opt_o': o, 'input_paths': _strlist(ins)}
@@ -1289,6 +1406,23 @@ _CMDLINES = [
     ('link-ar-dso-lib', [], [_C1, 'lib.d/libz.v1.a', 'lib.d/libq.v2.so', '-lm'], ['a.out'], ['cc1', 'as', 'ld']),
     ('c-obj', ['-c'], [_C1, _O1], [_stem(_C1) + '.o'], ['cc1', 'as']),
     ('S-obj', ['-S'], [_C1, _O1], [_stem(_C1) + '.s'], ['cc1']),
+    # linker operands in every mode that does not link (make rules pass $(LDLIBS) / $(LDFLAGS) to every compiler call)
+    ('E-lib', ['-E'], [_C1, '-lm'], [], ['cc1']),
+    ('E-Wl', ['-E'], ['-Wl,--as-needed', _C1], [], ['cc1']),
+    ('M-lib', ['-M'], [_C1, '-lm'], [], ['cc1']),
+    ('M-Wl', ['-M'], [_C1, '-Wl,-z,now'], [], ['cc1']),
+    ('M+MF-shared-lib', ['-M', '-MF', 'deps.v1.mk', '-shared'], [_C1, '-lq.v1'], [], ['cc1']),
+    ('M+MT-lib-first', ['-MT', 'tgt.v1', '-M'], ['-lm', _C1], [], ['cc1']),
+    ('S-lib', ['-S'], [_C1, '-lm'], [_stem(_C1) + '.s'], ['cc1']),
+    ('S-Wl', ['-S'], ['-Wl,-z,now', _C1], [_stem(_C1) + '.s'], ['cc1']),
+    ('c-lib', ['-c'], [_C1, '-lm'], [_stem(_C1) + '.o'], ['cc1', 'as']),
+    ('c-Wl', ['-c'], [_C1, '-Wl,-z,now,--as-needed'], [_stem(_C1) + '.o'], ['cc1', 'as']),
+    ('c+MD-lib', ['-c', '-MD'], [_C1, '-lm'], [_stem(_C1) + '.o'], ['cc1', 'as']),
+    ('c-asm-lib', ['-c'], [_A1, '-lm'], [_stem(_A1) + '.o'], ['as']),
+    ('c-ar-dso', ['-c'], [_C1, 'lib.d/libz.v1.a', 'lib.d/libq.v2.so'], [_stem(_C1) + '.o'], ['cc1', 'as']),
+    ('S-asm-lib', ['-S'], [_A1, '-lm'], [], []),
+    ('link-lib-Wl', [], [_C1, '-lm', '-Wl,-z,now'], ['a.out'], ['cc1', 'as', 'ld']),
+    ('link+MD-lib', ['-MD'], [_C1, '-lm'], ['a.out'], ['cc1', 'as', 'ld']),
 ]
 
 
@@ -1304,10 +1438,10 @@ def _r148_cmdlines(P, u, rep, cg, pure, models):
         key0 = '%s:main:cmd-%s' % (U, label)
         words = ['chibicc'] + opts + ins
         shown = ' '.join(words)
-        argv = Arr([L.cbuf(x, 'argv') for x in words] + [0], label='argv')
         try:
             it = L.make_interp(P, u, opaque=opaque, extra_models=models, globals_=_zero_statics(u, {}), loop_limit=2)
-            ps = it.explore('main', lambda ctx: [len(words), _Ref(ElemPlace(argv, 0))], max_paths=500)
+            # (a fresh argument vector per path: the driver may cut operands up in place)
+            ps = it.explore('main', lambda ctx: [len(words), _Ref(ElemPlace(Arr([L.cbuf(x, 'argv') for x in words] + [0], label='argv'), 0))], max_paths=500)
         except AnalysisBroken as e:
             rep.undecided('R14.8', key0 + ':interpretation', str(e))
             continue
@@ -1363,6 +1497,9 @@ def _check_pipeline_names(rep, key0, sc, ctx, ins, expect, w):
                 pushed = []
             stages.append(('ld', [('linker-input', ident(v)) for v in pushed], [('linker-output', ident(args[1]))], e[3]))
     cmdline = set(ins)
+    for x in ins:
+        if x.startswith('-Wl,'):        # `-Wl,a,b` hands the words a and b to the linker
+            cmdline.update(w_ for w_ in x[4:].split(',') if w_)
     written = {}
     unread = set()
     finals = []
